@@ -112,6 +112,8 @@ def run(report, p):
             if isinstance(n, ast.BinOp) and isinstance(n.op, (ast.Mod, ast.FloorDiv, ast.Mult)):
                 rv = p.fold(n.right, f)
                 lv = p.fold(n.left, f)
+                if isinstance(n.op, ast.Mult) and (isinstance(rv, str) or isinstance(lv, str)):
+                    continue  # repetition of a string, not arithmetic in the radix
                 cands = [v for v in (rv, lv) if isinstance(v, int)]
                 r4.check(58 in cands, f, n, f"radix constant in `{norm(n)}` is not 58", construct=f"radix in {norm(n)}")
             if isinstance(n, ast.Call) and norm(n.func) == "divmod":
@@ -122,8 +124,22 @@ def run(report, p):
                 okq = isinstance(st, ast.Assign) and isinstance(st.targets[0], ast.Tuple) and len(st.targets[0].elts) == 2 and norm(st.targets[0].elts[0]) == norm(n.args[0])
                 r4.check(okq, f, st, "divmod result is not unpacked as (running value, digit)", construct="divmod unpacking")
     et = norm(enc.node)
-    r4.check("int(" in et and ", 16)" in et, enc, enc.node, "the digest is not parsed as a base-16 integer", construct="int(hexdigest, 16)")
-    r4.check("self.hasher.hexdigest()" in et, enc, enc.node, "c4 is not derived from the full SHA-512 hexdigest", construct="c4 source digest")
+    # the number that is rendered: int(<hexdigest()>, 16) or, equivalently, int.from_bytes(<digest()>, "big")
+    conv = []
+    for n in walk_no_nested(enc.node):
+        if isinstance(n, ast.Call) and norm(n.func) == "int" and len(n.args) == 2:
+            conv.append(("hex", n, p.fold(n.args[1], enc) == 16))
+        if isinstance(n, ast.Call) and norm(n.func) == "int.from_bytes" and n.args:
+            order = n.args[1] if len(n.args) > 1 else next((k.value for k in n.keywords if k.arg == "byteorder"), None)
+            signed = next((k.value for k in n.keywords if k.arg == "signed"), None)
+            conv.append(("bytes", n, order is not None and p.fold(order, enc) == "big" and (signed is None or p.fold(signed, enc) is False)))
+    if len(conv) != 1:
+        raise AnalysisError(f"{enc.qual}: conversion of the digest into the integer that is rendered not recognised ({len(conv)} candidates)")
+    kind, cnode, okc = conv[0]
+    r4.check(okc, enc, cnode, "the digest is not parsed as a base-16 integer" if kind == "hex" else "the digest bytes are not read as an unsigned big-endian integer", construct="int(hexdigest, 16)" if kind == "hex" else "int.from_bytes(digest, big)")
+    want = "hexdigest" if kind == "hex" else "digest"
+    src_ok = any(o[0] == "call" and o[1].endswith("." + want) and "hasher" in sig(o) for o in prov(p).origins(cnode.args[0], enc)) or f"self.hasher.{want}()" in norm(cnode.args[0]) or any(isinstance(a, ast.Assign) and norm(a.targets[0]) == norm(cnode.args[0]) and norm(a.value) == f"self.hasher.{want}()" for a in walk_no_nested(enc.node))
+    r4.check(src_ok, enc, cnode, "c4 is not derived from the full SHA-512 hexdigest" if kind == "hex" else "c4 is not derived from the full SHA-512 digest", construct="c4 source digest")
     # digits are prepended
     pre = [n for n in walk_no_nested(enc.node) if isinstance(n, ast.Assign) and isinstance(n.value, ast.BinOp) and isinstance(n.value.op, ast.Add) and isinstance(n.value.left, ast.Subscript) and norm(n.value.left.value).endswith(alpha_name)]
     app = [n for n in walk_no_nested(enc.node) if isinstance(n, (ast.Assign, ast.AugAssign)) and isinstance(getattr(n, "value", None), (ast.BinOp, ast.Subscript)) and ((isinstance(n, ast.AugAssign) and isinstance(n.value, ast.Subscript) and norm(n.value.value).endswith(alpha_name)) or (isinstance(n, ast.Assign) and isinstance(n.value, ast.BinOp) and isinstance(n.value.right, ast.Subscript) and norm(n.value.right.value).endswith(alpha_name)))]
@@ -138,16 +154,40 @@ def run(report, p):
     valname = wt.split("!=")[0].split(">")[0]
     r4.check(wt in (f"{valname}!=0", f"{valname}>0", valname), enc, ewl[0], f"the encoder loop `{norm(ewl[0].test)}` does not run until the value is used up", construct="encoder loop condition")
     pads = [n for n in walk_no_nested(enc.node) if isinstance(n, ast.Call) and isinstance(n.func, ast.Attribute) and n.func.attr in ("rjust", "ljust", "zfill", "center")]
-    if len(pads) != 1:
+    if not pads:
+        # padding by repetition of the zero digit:  "c4" + zero * (88 - len(digits)) + digits
+        reps = [n for n in walk_no_nested(enc.node) if isinstance(n, ast.BinOp) and isinstance(n.op, ast.Mult) and any(isinstance(p.fold(x, enc), str) and len(p.fold(x, enc)) == 1 for x in (n.left, n.right))]
+        if len(reps) == 1 and pre:
+            rp = reps[0]
+            cnt = rp.right if isinstance(p.fold(rp.left, enc), str) else rp.left
+            zero = p.fold(rp.left, enc) if isinstance(p.fold(rp.left, enc), str) else p.fold(rp.right, enc)
+            seen_n = 0
+            while isinstance(cnt, ast.Name) and seen_n < 4:
+                b = [a for a in walk_no_nested(enc.node) if isinstance(a, ast.Assign) and len(a.targets) == 1 and norm(a.targets[0]) == cnt.id]
+                if len(b) != 1:
+                    break
+                cnt, seen_n = b[0].value, seen_n + 1
+            digits = norm(pre[0].targets[0])
+            uses_len = any(isinstance(x, ast.Call) and norm(x.func) == "len" and x.args and norm(x.args[0]) == digits for x in ast.walk(cnt))
+            widths = [x.value for x in ast.walk(cnt) if isinstance(x, ast.Constant) and isinstance(x.value, int) and not isinstance(x.value, bool)] + [p.fold(x, enc) for x in ast.walk(cnt) if isinstance(x, ast.Name) and isinstance(p.fold(x, enc), int)]
+            if not uses_len:
+                r4.check(False, enc, rp, f"the number of padding digits `{norm(cnt)[:70]}` does not depend on how many base-58 digits were produced: the c4 ID is a fixed-width 88-digit number, padded to that width whatever the leading bytes of the digest are", construct="c4 padding count independent of the digit count")
+            else:
+                r4.check(88 in widths and zero == BASE58[0], enc, rp, f"c4 text form is not padded with '1' to 88 digits ({norm(rp)[:60]})", construct=f"padding {norm(rp)[:40]}")
+            pads = None
+    if pads is not None and len(pads) != 1:
         raise AnalysisError(f"{enc.qual}: padding step not recognised")
-    okp = pads[0].func.attr == "rjust" and len(pads[0].args) == 2
+    if pads is None:
+        pads = []
+    okp = bool(pads) and pads[0].func.attr == "rjust" and len(pads[0].args) == 2
     width = fill = prefix = None
     if okp:
         width, fill = p.fold(pads[0].args[0], enc), p.fold(pads[0].args[1], enc)
         par = parent(pads[0])
         prefix = p.fold(par.left, enc) if isinstance(par, ast.BinOp) and isinstance(par.op, ast.Add) else None
         okp = prefix == "c4" and isinstance(width, int) and width + len(prefix) == 90 and fill == BASE58[0]
-    r4.check(okp, enc, pads[0], f"c4 text form is not 'c4' + 88 digits left-padded with '1' ({norm(pads[0])}; prefix {prefix!r}, width {width}, fill {fill!r})", construct=f"padding {norm(pads[0])}")
+    if pads:
+      r4.check(okp, enc, pads[0], f"c4 text form is not 'c4' + 88 digits left-padded with '1' ({norm(pads[0])}; prefix {prefix!r}, width {width}, fill {fill!r})", construct=f"padding {norm(pads[0])}")
     # decoder
     dt = norm(dec.node)
     wl = [n for n in walk_no_nested(dec.node) if isinstance(n, ast.While)]
@@ -166,7 +206,14 @@ def run(report, p):
         loopnode = wl[0]
     else:
         it = fl[0].iter
-        okd = isinstance(it, ast.Call) and norm(it.func) == "range" and len(it.args) in (2, 3) and p.fold(it.args[0], dec) == 2 and p.fold(it.args[1], dec) == 90 and (len(it.args) == 2 or p.fold(it.args[2], dec) == 1)
+        direct = False
+        if isinstance(it, ast.Subscript) and isinstance(it.slice, ast.Slice) and isinstance(it.value, ast.Name) and it.value.id in dec.params:
+            # for ch in text[2:] / text[2:90]: the characters themselves, in order (same digits for every canonical 90-character id)
+            sl = it.slice
+            okd = p.fold(sl.lower, dec) == 2 and (sl.upper is None or p.fold(sl.upper, dec) == 90) and sl.step is None
+            direct = True
+        else:
+            okd = isinstance(it, ast.Call) and norm(it.func) == "range" and len(it.args) in (2, 3) and p.fold(it.args[0], dec) == 2 and p.fold(it.args[1], dec) == 90 and (len(it.args) == 2 or p.fold(it.args[2], dec) == 1)
         r4.check(okd, dec, fl[0], "the decoder does not read the digits at positions [2, 90) one by one", construct="decoder bounds")
         idxvar = norm(fl[0].target)
         loopnode = fl[0]
@@ -174,7 +221,7 @@ def run(report, p):
     if len(acc) != 1:
         raise AnalysisError(f"{dec.qual}: decoder accumulation not recognised")
     r4.check(norm(acc[0].value.left.left) == norm(acc[0].targets[0]), dec, acc[0], "the decoder does not accumulate result * 58 + digit left to right", construct="decoder accumulation")
-    r4.check(f"{alpha_name}.index(" in dt and f"[{idxvar}]" in dt, dec, dec.node, "the decoder does not look the digit at the running position up in the same alphabet", construct="decoder alphabet")
+    r4.check(f"{alpha_name}.index(" in dt and (f"[{idxvar}]" in dt or (not wl and direct and f"{alpha_name}.index({idxvar})" in dt)), dec, dec.node, "the decoder does not look the digit at the running position up in the same alphabet", construct="decoder alphabet")
     tb = [n for n in walk_no_nested(dec.node) if isinstance(n, ast.Call) and isinstance(n.func, ast.Attribute) and n.func.attr == "to_bytes"]
     okb = len(tb) == 1 and len(tb[0].args) >= 1 and p.fold(tb[0].args[0], dec) == 64 and (any(k.arg == "byteorder" and p.fold(k.value, dec) == "big" for k in tb[0].keywords) or (len(tb[0].args) == 2 and p.fold(tb[0].args[1], dec) == "big"))
     r4.check(okb, dec, tb[0] if tb else dec.node, "the decoded value is not rendered as 64 bytes big-endian", construct="decoder to_bytes")
